@@ -58,6 +58,9 @@ func c09Monitor(m *vk.Meta, in mgrIn, out mgrOut) {
 			// judged by effect: a statement that changes nothing is not a change
 			for h, a := range st.WorldAfter {
 				b := st.WorldBefore[h]
+				if in.Fault != nil && in.Fault.Action == "unchannel" && in.Fault.Host == h && k == in.FaultAt {
+					b.Chan = nil // the injected event (someone else's RESET REPLICA ALL) is not a change made by mysync
+				}
 				chg := ""
 				switch {
 				case a.RO != b.RO || a.SuperRO != b.SuperRO:
